@@ -538,41 +538,51 @@ theorem xg_Zq (n q : Nat) (s : Bool) : EqOn n (PRow.xg q (Zq q s)) (Zq q (!s)) :
   refine (xg_eqOn n q _).trans ⟨fun j _ => ⟨rfl, rfl⟩, ?_, rfl⟩
   simp [Zq]
 
-theorem resetZ_random_eq (t : Tab) (q p : Nat) (i o : Bool) (hq : q < t.n) (hp : t.pivot q = some p) :
-    t.resetZ q i o =
-      { (t.measRandom q p o) with
-        row := upd (t.measRandom q p o).row p { ((t.measRandom q p o).row p) with r := i, ip := false } } := by
-  obtain ⟨p1, _, _⟩ := pivot_spec t q p hp
-  have hpz : p ≠ 0 := by omega
-  unfold resetZ
-  simp [zMeasure, hp, hpz]
+/-- clearing the iphase bit of a row that has none changes nothing -/
+theorem clearIp_eq (t : Tab) (p : Nat) (h : (t.row p).ip = false) :
+    ({ t with row := upd t.row p { (t.row p) with ip := false } } : Tab) = t := by
+  obtain ⟨n, row⟩ := t
+  simp only at h ⊢
+  congr
+  funext j
+  unfold upd
+  by_cases e : j = p
+  · subst e
+    rw [if_pos rfl]
+    generalize row j = r at h
+    obtain ⟨x, z, r, ip⟩ := r
+    simp only at h
+    subst h
+    rfl
+  · rw [if_neg e]
+
+/-- **`reset_z` is "measure, then flip iff the outcome is not the intended state"**, as tables (the `iphase := 0` of the
+    random branch is a no-op on a tableau whose stabilizer rows are real) -/
+theorem resetZ_eq (t : Tab) (q : Nat) (i o : Bool) (hr : t.StabReal) :
+    t.resetZ q i o = if (t.zMeasure q o).2.1 = i then (t.zMeasure q o).1 else (t.zMeasure q o).1.xGate q := by
+  cases hp : t.pivot q with
+  | none =>
+    unfold resetZ
+    simp [zMeasure, hp]
+  | some p =>
+    obtain ⟨p1, p2, _⟩ := pivot_spec t q p hp
+    have hpz : p ≠ 0 := by omega
+    have hip : ((t.measRandom q p o).row p).ip = false := by
+      simp only [measRandom, if_true]
+      exact hr p p1 p2
+    have hc := clearIp_eq (t.measRandom q p o) p hip
+    unfold resetZ
+    simp only [zMeasure, hp, hpz, ne_eq, not_false_eq_true, if_true]
+    rw [hc]
+
+theorem resetZ_random_eq (t : Tab) (q p : Nat) (i o : Bool) (hr : t.StabReal) (hp : t.pivot q = some p) :
+    t.resetZ q i o = if o = i then t.measRandom q p o else (t.measRandom q p o).xGate q := by
+  rw [resetZ_eq t q i o hr]
+  simp [zMeasure, hp]
 
 theorem resetZ_det_eq (t : Tab) (q : Nat) (i o : Bool) (hp : t.pivot q = none) :
     t.resetZ q i o = if (t.measScratch q).r = i then t else t.xGate q := by
   unfold resetZ
   simp [zMeasure, hp]
-
-/-- **reset of an entangled qubit** (random branch): the drawn outcome is discarded; the result has the group of the
-    measurement branch `outcome = intended` -/
-theorem resetZ_random_grp (t : Tab) (q p : Nat) (i o : Bool) (hr : t.StabReal) (hq : q < t.n)
-    (hp : t.pivot q = some p) : ∀ P, Grp (t.resetZ q i o) P ↔ Grp (t.measRandom q p i) P := by
-  obtain ⟨p1, p2, _⟩ := pivot_spec t q p hp
-  rw [resetZ_random_eq t q p i o hq hp]
-  refine grp_congr_gens _ (t.measRandom q p i) (by rfl) ?_
-  intro k hk
-  have hk' : k < t.n := hk
-  show EqOn t.n (upd (t.measRandom q p o).row p _ (k + t.n)) ((t.measRandom q p i).row (k + t.n))
-  unfold upd
-  by_cases e : k + t.n = p
-  · rw [e]
-    refine ⟨fun j _ => ?_, ?_, ?_⟩
-    · simp [measRandom]
-    · simp [measRandom]
-    · simp only [measRandom, if_true]
-      exact (hr p p1 p2).symm
-  · simp only [e, if_false]
-    have : (t.measRandom q p o).row (k + t.n) = (t.measRandom q p i).row (k + t.n) := by
-      simp [measRandom, e]
-    rw [this]; exact EqOn.refl _ _
 
 end Graphiq.TabSpec
